@@ -97,10 +97,11 @@ type lane struct {
 }
 
 type rig struct {
-	lanes []*lane
-	mgr   *protocol.PushPullManager
-	dead  int32
-	err   string
+	lanes  []*lane
+	mgr    *protocol.PushPullManager
+	dead   int32
+	err    string
+	stalls int // times the tracker loop was found blocked on its full request channel
 }
 
 func peerOf(p int) peer.ID { return peer.ID(fmt.Sprintf("p%d", p)) }
@@ -201,6 +202,43 @@ func (r *rig) exec(e c20ev) (out []c20out) {
 		l.hashes[e.H] = true
 		r.mgr.VerifAddPush(peerOf(e.P), l.typ, hashOf(e.H))
 		return r.drain("imm")
+	case "annq": // the consumer of PushPullManager.Requests() is stalled: nothing is taken out
+		l.hashes[e.H] = true
+		r.mgr.VerifAddPush(peerOf(e.P), l.typ, hashOf(e.H))
+	case "drainq": // the consumer runs again
+		return r.drain("req")
+	case "loopstall":
+		// the tracker loop runs while the consumer of tracker.Requests() is stalled: it either parks again or blocks on
+		// the full channel (capacity 1000); only then does the consumer resume and take requests until the loop parks
+		if common.VerifBlockingReleaseGid(l.gids["loop"]) {
+			n := 2 * len(r.lanes)
+			ch := l.tracker.Requests()
+			stable, lastP := 0, -1
+			for i := 0; i < 200000 && stable < 20; i++ {
+				if common.VerifBlockingWaitParked(n, 100*time.Microsecond) {
+					break
+				}
+				if p := l.tracker.VerifPendingLen(); len(ch) == cap(ch) && p == lastP {
+					stable++
+				} else {
+					stable, lastP = 0, p
+				}
+			}
+			if stable >= 20 {
+				r.stalls++
+			}
+			for i := 0; ; i++ {
+				out = append(out, r.collect(l)...)
+				if common.VerifBlockingWaitParked(n, 200*time.Microsecond) {
+					break
+				}
+				if i > 100000 {
+					r.err = "tracker loop did not park again after its consumer resumed"
+					return out
+				}
+			}
+			return append(out, r.collect(l)...)
+		}
 	case "arr":
 		l.hashes[e.H] = true
 		r.mgr.VerifAddEntry(l.typ, hashOf(e.H), "item")
